@@ -116,6 +116,8 @@ def k3_methods(cont):
     if cont not in ('utmap', 'utset'):
         ms.append(('capacity', 12))
     ms += [('insert_range', 20), ('erase_range', 21), ('find_range', 22), ('find_range_fill', 23)]
+    if cont in ITER_CONTS:
+        ms += sorted(ITER_METHODS.items(), key=lambda kv: kv[1])
     return ms
 
 
@@ -131,11 +133,20 @@ def k3_query(cont, method, mid, n, prop, rlen=2, timeout=300):
 
 # ---- K5: relational two-copy queries
 RMETHODS = {'insert_range': 20, 'erase_range': 21, 'find_range': 22, 'find_range_fill': 23}
+# fifo_cache alone also publishes the iterator-pair overloads the range forms delegate to; find(b, e) with the distance argument
+# left at its default is a path no range form reaches
+ITER_METHODS = {'insert_it': 24, 'erase_it': 25, 'find_it': 26, 'find_fill_it': 27}
+ITER_CONTS = ('fifo',)
+RM_ALL = dict(RMETHODS, **ITER_METHODS)
+
+
+def rmethods(cont):
+    return list(RMETHODS) + (list(ITER_METHODS) if cont in ITER_CONTS else [])
 
 
 def k5_query(cont, mode, n, prop, rmethod=None, rlen=2, ts='no', timeout=600, extra=None, tag=''):
     defs = {'CONT_HDR': '"c_%s.hpp"' % cont, 'MODE': mode, 'HCAP': n, 'PROP': prop, 'TS': ts, 'RLEN': rlen, 'RMAX': max(rlen, 1),
-            'RMETHOD': RMETHODS.get(rmethod, 0), 'VSTD_TAB_MAX': n + 1, 'VSTD_LIST_MAX': n + 1}
+            'RMETHOD': RM_ALL.get(rmethod, 0), 'VSTD_TAB_MAX': n + 1, 'VSTD_LIST_MAX': n + 1}
     if extra:
         defs.update(extra)
     cb = [] if prop == 0 else ['VF_CHECK_ASSUME']
@@ -145,7 +156,7 @@ def k5_query(cont, mode, n, prop, rmethod=None, rlen=2, ts='no', timeout=600, ex
                  cbmc_flags=(['--trace'] if prop != 99 else []),
                  meta={'kind': 'k5', 'cont': cont, 'mode': mode, 'rmethod': rmethod, 'n': n, 'prop': prop, 'ts': ts, 'rlen': rlen,
                        'mem_gb': (6 if heavy else 2) * (1 if n <= 2 else 3),
-                       'weight': WEIGHT.get(cont, 2) * (8 ** (n - 1)) * (6 if rmethod == 'insert_range' else 2)})
+                       'weight': WEIGHT.get(cont, 2) * (8 ** (n - 1)) * (6 if rmethod in ('insert_range', 'insert_it') else 2)})
 
 
 def counted_query(cont, n, ksteps, prop, timeout=600):
